@@ -3,7 +3,29 @@
 import json, os
 HERE = os.path.dirname(os.path.abspath(__file__))
 
-TECH = "deterministic simulation with fault injection: seeded search over schedules, fault scripts and workloads (blsim discrete-event simulator, libc clock/entropy seams), oracle = reference model / ground truth, failures minimised to a replay file"
+TECH = "deterministic simulation with fault injection: seeded search over schedules, fault scripts and workloads (blsim discrete-event simulator; libc clock/entropy seams; a thread scheduler for concurrent callers with preemption at allocations, lock waits and instruction offsets), oracle = reference model / ground truth / sequential result, failures minimised to a replay file"
+
+# dimensions every claimed property shares (appended to its level text)
+ROUTES = " In 4 of 10 runs of every class a seed-drawn share of the library calls goes through an alternative public route to the same operation (the scheme traits, BlsSignature constructors, sibling conversions: 40 operations), under the same oracles."
+CONC = " Class conc-*: the calls of this property's own scenario, recorded in a sequential run, are replayed by 2-4 caller threads of one process under the simulator's thread scheduler (a baton; preemption at every heap allocation / deallocation, lock wait, yield and call boundary, and at a drawn instruction offset after one of these by single-stepping; also free-running from a barrier, and calls made from a thread-local destructor during thread teardown); every caller must get the sequential result."
+EXTRA = {
+ "C01": " Messages whose content is related to the signer's key material (pk || m, pk, pk with a bit flipped, an earlier signature, the proof of possession) are signed and verified in every run.",
+ "C02": " Half of the perturbed tuples reach the verifier in another codec (serde_bare, three serde_json front ends, the harness's own serde format, boxed bytes), forged there by substituting the point bytes, and are verified as decoded in that codec.",
+ "C05": " Real aggregates of 2-4 signers in three list shapes (distinct messages, one message, two and two) are relabelled and verified against their own list.",
+ "C06": " Class agg-block-sizes: honest aggregates at every list size n with n or n+1 a multiple of 32..256 up to 1025; class mixed-blocks: lists of up to 4500 signatures made of whole runs of two schemes at memory-block run lengths (2^k / size_of::<Signature>()).",
+ "C07": " Class mixed-blocks: lists of up to 4500 signatures made of whole runs of two schemes at memory-block run lengths.",
+ "C08": " Key-share, public-key-share and partial-signature sets in which one identifier carries two different values (two dealings of one key mixed) must be refused.",
+ "C09": " A registry that verifies proofs lazily from inside the iterator handed to aggregate_verify (library calls nested in a library call) must give every proof the verdict it gets on its own.",
+ "C10": " Between the protocol steps the prover parks its commitment secret and commitment, and the verifier ships its challenge, in a drawn codec (all byte containers, serde_bare, serde_json front ends, big/little endian, the harness's own serde format).",
+ "C11": " Class sc-roundtrip-huge: payloads of 64 and 128 MiB (thorough: 256 MiB).",
+ "C13": " Class tl-beacon-huge: payloads of 64 and 128 MiB (thorough: 256 MiB).",
+ "C15": " Every type also travels through a third, self-describing serde format owned by the harness in four modes (binary/human-readable, lending or owned buffers, structs as sequences or maps).",
+ "C16": " The Byzantine encoder also works in the harness's own serde format (point substitution, point-sized runs shortened) and adds the honest point plus a small-order point; the curve-tagged key wrapper is imported at every other length through all its byte importers.",
+ "C17": " Structure-level corruption of documents in the harness's own serde format (one element more / fewer / 300 more, bytes <-> sequence, wrong scalar kind, variant tags, unknown / duplicate / missing keys) into every decoder of every type.",
+ "C18": " The golden corpus includes the harness's own serde format; ElGamal proofs over an application-chosen generator are exchanged with the reference both ways.",
+ "C19": " Class agg-block-sizes: aggregates at batch-boundary list sizes up to 1025 on both back ends.",
+ "C20": " Thirteenth entry point: the trait-level seal with a caller-supplied blinder. Class conc-fresh: all threads of a session make the same randomized call under the simulator's thread scheduler; every 32-byte run of every output must be distinct.",
+}
 
 CLAIMED = {
  "C04": dict(
@@ -103,7 +125,7 @@ def main():
                 "evidence_file": f"/verif/evidence/{i}.json",
                 "replay_cmd_template": "./check replay {path}",
                 "engine": "blsim",
-                "level_claimed": {"category": "exploration", "text": c["text"], "design_ref": c["ref"]},
+                "level_claimed": {"category": "exploration", "text": c["text"] + EXTRA.get(i, "") + (ROUTES if i != "C20" else "") + (CONC if i not in ("C18", "C19", "C20") else ""), "design_ref": c["ref"]},
                 "level_note": c["note"],
                 "technique": TECH,
             })
@@ -119,7 +141,7 @@ def main():
             "add_only": True,
         },
         "engines": [{"name": "blsim", "path": "/verif/sim", "serves_properties": [c["property_id"] for c in checks],
-                     "kind_free_text": "single-process discrete-event simulator (seeded scheduler, per-node clocks/entropy/disks, fault-injecting transport) driving the real blsful code of /repo's working tree through a byte-level facade; reference implementation as oracle; plan/replay/minimisation"}],
+                     "kind_free_text": "single-process discrete-event simulator (seeded scheduler, per-node clocks/entropy/disks, fault-injecting transport; thread scheduler for concurrent caller threads) driving the real blsful code of /repo's working tree through a byte-level facade; reference implementation as oracle; plan/replay/minimisation"}],
         "checks": checks,
         "not_applicable": na,
         "notes": "Exit codes of ./check: 0 held (known findings allowed), 1 violation (VIOLATION line + replay file), 2 harness error. VERIF_SEED seeds every run; VERIF_SCALE multiplies run counts; see DESIGN.md.",
